@@ -6,5 +6,5 @@ PROP = {"engines": [("list", "default", 2500), ("slist", "default", 2000), ("rbu
                       "held element in order. This is partial by nature: a theorem about the model cannot exhibit a stray write in the compiled code. The tie is the correspondence run of "
                       "every engine under AddressSanitizer + UBSan with ledgered allocators (a model Fault must coincide with a sanitizer abort, and the ledger counters after destroy must agree).",
         "assumptions": ["pointer-level safety of the red-black tree and hash chains is modelled structurally; for them the runtime sanitizers on the sampled histories are the evidence",
-                        "uninitialised reads are observed only where the harness poisons fresh memory (0xAB fill) and the value reaches an observation; no MemorySanitizer (uninstrumented libc qsort)"],
+                        "uninitialised reads: in the quick tier they are observed where the harness poisons fresh memory (0xAB fill) and the value reaches an observation; the thorough tier adds a valgrind memcheck pass (fresh memory left undefined) on a stratified 250 traces per engine; no MemorySanitizer (uninstrumented libc qsort)"],
         "technique": "machine-checked Coq proof (no-fault + ledger balance per engine) + sanitizer-instrumented model/implementation correspondence"}
